@@ -979,11 +979,8 @@ def predict(M, P, opts, relaxed):
             excs.add("ValueError")
             rules.add("scrypt_n_vs_r_limit")
             continue
-        if M.is_scrypt and m.get("ident") == "$7$" and m.get("pin") is None and (4 * (m.get("ssize") or 0) + 2) // 3 > (M.mx_s or 1 << 62):
-            # the $7$ format stores the salt base64-encoded; the encoded salt must still fit max_salt_size
-            excs.add("ValueError")
-            rules.add("scrypt_7_encoded_salt_limit")
-            continue
+        # (the $7$ format stores the salt base64-encoded; an encoded salt longer than max_salt_size is either
+        #  refused by using() or cut to the limit -- both keep every hash inside the limits, neither is demanded)
         out.append((m, c))
     predict.rules = sorted(rules) if not out else []
     return excs, out
@@ -1031,12 +1028,29 @@ def raw_vary_range(M, N):
     return (d - v, d + v)
 
 
+def bsdi_even_only(M, N, obj):
+    """bsdi_crypt node whose configured window holds exactly one value and that value is even"""
+    lo = getattr(obj, "min_desired_rounds", None) or M.mn
+    hi = getattr(obj, "max_desired_rounds", None) or M.mx
+    return lo == hi and not lo & 1
+
+
 def classify_rounds(M, N, r):
     """None when r is an acceptable cost of a hash made by node N, else the failing class"""
     if r is None:
         return "rounds_missing"
     if r < M.mn or (M.mx is not None and r > M.mx):
         return "rounds_outside_hard_limits"
+    if M.bsdi:
+        lo = max(N.get("mn_d") or M.mn, M.mn)
+        hi = N.get("mx_d") if N.get("mx_d") is not None else M.mx
+        rr0 = rounds_range(M, N)
+        if rr0 is not None:
+            lo, hi = max(lo, rr0[0]), min(hi, rr0[1])
+        if lo == hi and not lo & 1:
+            # the admissible range holds a single even value: "odd rounds only" (documented, using() warns about the
+            # configuration) and "inside the window" cannot both be honoured -- nothing is demanded beyond the hard limits
+            return None
     if N.get("mn_d") and r < N["mn_d"]:
         return "rounds_below_window"
     if N.get("mx_d") is not None and r > N["mx_d"]:
@@ -1060,7 +1074,7 @@ def expected_salt_len(M, N, ident):
     if n is None:
         return None
     if M.is_scrypt and ident == "$7$":
-        return (4 * n + 2) // 3
+        return min((4 * n + 2) // 3, M.mx_s) if M.mx_s else (4 * n + 2) // 3
     return n
 
 
@@ -1546,6 +1560,8 @@ def real_hash_check(W, nd, s, prefix, depth):
             if M.name not in HS.PLAINTEXT and nd.obj.verify(PW_OTHER, h, **M.ckw):
                 out.append((key(M, "other", f"{prefix}hash:wrong_password_accepted"), f"{M.name}: another password verifies against {h!r}"))
         nu = nu_obs(nd.obj, h)
+        if nu is not False and M.bsdi and bsdi_even_only(M, nd.model if hasattr(nd, "model") else None, nd.obj):
+            nu = False  # window holding a single even value: see classify_rounds()
         if nu is not False:
             out.append((key(M, "needs_update", f"{prefix}hash:own_hash_needs_update"), f"{M.name}: needs_update() of the node's own fresh hash {h!r} = {nu!r}"))
     except core.HarnessError:
